@@ -41,6 +41,8 @@ import XotModel.Lemmas.SerIndentWhere
 import XotModel.Lemmas.SerIndentInner
 import XotModel.Lemmas.NormalizerFullwidth
 import XotModel.Lemmas.WriterXml
+import XotModel.Lemmas.SerIndentLeafParse
+import XotModel.Lemmas.PrettyBytes
 import XotModel.Props.C01
 
 namespace XotModel.Props
@@ -892,5 +894,255 @@ example :
       = ("<?xml version=\"1.0\"?>\n<k>\n  <t/>\n</k>\n", .ok ()) ∧
     (serializeXmlString c01Env p t []).okValue?.map String.ofList = some "<?xml version=\"1.0\"?>\n<k>\n  <t/>\n</k>\n" := by
   decide
+
+/-! ### C14_pretty_only_whitespace on the CONCATENATED bytes
+
+`C14_pretty_only_whitespace` speaks per token: `k1` ends with `>` OR is the empty end-tag token of an element
+written `<e/>`.  Here the empty token is looked through (Lemmas/PrettyEmptyEnd.lean: on `TextOk` trees the end-tag
+event of a childless element directly follows that element's `startTagClose` event — token `/>`, no newline — and
+`prettify` gives the empty token indentation 0), so the statement is about the two STRINGS.  `prettyBody k` is what
+`serialize_node` writes for the token (`tokenBytes (erasePretty k).2.2`): the plain output is `ks.flatMap prettyBody`
+(`C14_pretty_content`), the indented one `ks.flatMap (prettyTokenBytes ·.2.2)` (`C14_pretty_string`). -/
+
+/-- **C14_pretty_only_whitespace_bytes** (`TextOk` start nodes — well-formed documents and element-rooted
+    subtrees —, every tree around them, every parameter set, arbitrary escaping functions).  Cut both strings
+    between two consecutive tokens `k1 k2` that the indenting writer separates (newline behind `k1` or indentation
+    in front of `k2`); `run` = the characters the indented output has there and the plain output lacks.  Then
+    (a) the indented string is `A ++ run ++ B` and the plain string `A' ++ B'` with `A'`, `B'` the plain bytes of
+        the tokens up to `k1` / from `k2` on;
+    (b) `run` consists of line feeds and blanks;
+    (c) the plain bytes before the run END WITH `>` (`A'.getLast? = some '>'`: not only "the token `k1`", which may
+        be empty);
+    (d) the plain bytes behind the run BEGIN WITH `<`, and so does the token `k2` itself, without a blank in
+        front: the run is maximal in the indented string (`B` begins with `<`).
+    Outside `TextOk` the statement fails: `C14_pretty_fragment_text_gets_newline` (fragment `<a/>x`: the run
+    behind `<a/>` is followed by `x`).  The run behind the LAST token (`…>` + LF at the end of the output) has no
+    `k2`: for it `C14_pretty_token_kinds` (the token closes markup) is the statement on record. -/
+theorem C14_pretty_only_whitespace_bytes (esc : Escapers) (env : Env) (pr : TokenParams) (sup : List Nat)
+    (t : Tree) (start : Path) (n : Tree) (inScope : List (Nat × Nat)) (hat : t.at? start = some n)
+    (hs : namespacesInScope t start = some inScope) (hok : TextOk n)
+    (ks pre post : List (Path × Output × PrettyOutputToken)) (k1 k2 : Path × Output × PrettyOutputToken)
+    (h : prettyTokensWith esc env pr sup t start = .ok ks) (hks : ks = pre ++ k1 :: k2 :: post)
+    (hw : k1.2.2.newline = true ∨ k2.2.2.indentation > 0) :
+    (ks.flatMap (fun k => prettyTokenBytes k.2.2) =
+      (pre.flatMap (fun k => prettyTokenBytes k.2.2)
+          ++ (if k1.2.2.indentation > 0 then indentBytes k1.2.2.indentation else []) ++ prettyBody k1)
+        ++ ((if k1.2.2.newline then prettyNewline else [])
+          ++ (if k2.2.2.indentation > 0 then indentBytes k2.2.2.indentation else []))
+        ++ (prettyBody k2 ++ (if k2.2.2.newline then prettyNewline else [])
+          ++ post.flatMap (fun k => prettyTokenBytes k.2.2))) ∧
+    ks.flatMap prettyBody = (pre ++ [k1]).flatMap prettyBody ++ (k2 :: post).flatMap prettyBody ∧
+    (∀ k, prettyBody k = tokenBytes (erasePretty k).2.2) ∧
+    ((if k1.2.2.newline then prettyNewline else [])
+      ++ (if k2.2.2.indentation > 0 then indentBytes k2.2.2.indentation else [])).all isWsChar = true ∧
+    ((pre ++ [k1]).flatMap prettyBody).getLast? = some '>' ∧
+    ((k2 :: post).flatMap prettyBody).head? = some '<' ∧
+    (prettyBody k2).head? = some '<' := by
+  obtain ⟨a, b, c⟩ := pretty_whitespace_bytes sup t esc env pr start n inScope hat hs hok ks pre post k1 k2 h hks hw
+  refine ⟨?_, ?_, fun _ => rfl, pretty_run_ws k1.2.2 k2.2.2, a, b, c⟩
+  · subst hks
+    simp only [List.flatMap_append, List.flatMap_cons, prettyTokenBytes, prettyBody, List.append_assoc]
+  · subst hks
+    simp only [List.flatMap_append, List.flatMap_cons, List.flatMap_nil, List.append_nil, List.append_assoc]
+
+/-- Non-vacuity, closed: `<d><a/><!--c--></d>` (the example of `C14_pretty_only_whitespace`): between the EMPTY
+    end-tag token of `<a/>` (newline behind it) and `<!--c-->` (indentation 1) the run is LF + two blanks; the
+    plain bytes before it are `<><` + `/>` — ending with `>` although the token `k1` is empty. -/
+example :
+    let t : Tree := .node .document [.node (.element 5) [.node (.element 2) [], .node (.comment ['c']) []]]
+    ∃ ks pre post k1 k2, prettyTokens {} {} [] t [] = .ok ks ∧ ks = pre ++ k1 :: k2 :: post ∧
+      k1.2.2.text = [] ∧ k1.2.2.newline = true ∧ k2.2.2.indentation = 1 ∧
+      (pre ++ [k1]).flatMap prettyBody = "<></>".toList ∧ (k2 :: post).flatMap prettyBody = "<!--c--></>".toList := by
+  refine ⟨_, [_, _, _, _], [_], _, _, rfl, rfl, ?_⟩
+  decide
+
+/-! ### Indentation with a comment / processing-instruction / text START node (anywhere in any tree)
+
+`gen_outputs(node)` of such a node is its single event and `Pretty::new` starts with the EMPTY stack whatever
+is open above the node: `prettify` answers `(get_indentation(), get_newline()) = (0, true)` for `Comment` /
+`ProcessingInstruction` and `(0, false)` for `Text`.  So a comment or PI start node is written with one line
+feed behind it — also when it sits in mixed content, under `xml:space="preserve"` or under a suppressed element
+of the tree it is taken from — and a text start node is written exactly as without indentation.
+(`leafText`, `leafNewline`, `leafFragment`: Lemmas/SerIndentLeaf.lean, SerIndentLeafParse.lean; the crate agrees on
+the `ser` suite's single-node and inner-path cases, e.g. `C s:` with `i` gives `<!---->` + LF.) -/
+
+/-- **C14_indent_leaf_start**: for a comment / PI / text start node at ANY path of ANY tree (the node is a
+    leaf; nothing is assumed about the rest of the tree), any escaping functions, any token parameters, any
+    suppress list, with or without declaration, no doctype, indentation on:
+    (a) the exact outcome: declaration ++ the node's token ++ `leafNewline` (LF behind a comment or PI, nothing
+        behind a text node), or the token's error (`NamespaceInProcessingInstruction`);
+    (b) it is the outcome of the same call WITHOUT indentation with that `leafNewline` appended: the two
+        outputs differ by at most one trailing line feed, and not at all for a text node. -/
+theorem C14_indent_leaf_start (esc : Escapers) (env : Env) (p : XmlParams) (sup : List Nat) (t : Tree)
+    (start : Path) (v : Value) (hat : t.at? start = some (.node v [])) (hv : v.isLeafStart = true)
+    (hdt : p.doctype = none) (hind : p.indentation = some sup) :
+    serializeXmlStringWith esc env p t start =
+      Outcome.prependOk p.declBytes
+        ((leafText esc env p.tokenParams (t.parentAt? start) v).appendOk (leafNewline v)) ∧
+    serializeXmlStringWith esc env p t start =
+      (serializeXmlStringWith esc env { p with indentation := none } t start).appendOk (leafNewline v) ∧
+    (leafNewline v = [] ∨ leafNewline v = ['\n']) ∧ (v.isText = true → leafNewline v = []) := by
+  have h1 := serializeXmlString_leaf esc env p t start v hat hv
+  simp only [hdt, hind] at h1
+  have aux : ∀ p' : XmlParams, p'.doctype = none → p'.indentation = none → p'.declBytes = p.declBytes →
+      p'.tokenParams = p.tokenParams → serializeXmlStringWith esc env p' t start =
+        Outcome.prependOk p.declBytes ((leafText esc env p.tokenParams (t.parentAt? start) v).appendOk []) := by
+    intro p' a b c d
+    rw [serializeXmlString_leaf esc env p' t start v hat hv, a, b, c, d]
+  have h2 := aux { p with indentation := none } hdt rfl rfl rfl
+  refine ⟨h1, ?_, ?_, ?_⟩
+  · rw [h1, h2]
+    cases leafText esc env p.tokenParams (t.parentAt? start) v <;> simp [Outcome.appendOk, Outcome.prependOk]
+  · cases v <;> simp [leafNewline, prettyNewline]
+  · cases v <;> simp [leafNewline, Value.isText]
+
+/-- With a doctype the call on such a node answers `NotElement`, indentation or not. -/
+theorem C14_indent_leaf_start_doctype (esc : Escapers) (env : Env) (p : XmlParams) (t : Tree)
+    (start : Path) (v : Value) (hat : t.at? start = some (.node v [])) (hv : v.isLeafStart = true)
+    (d : DocType) (hdt : p.doctype = some d) :
+    serializeXmlStringWith esc env p t start = .err .notElement := by
+  rw [serializeXmlString_leaf esc env p t start v hat hv, hdt]
+
+/-- **C14_indent_leaf_start, round trip** (`parse_fragment`; `parse` rejects a text without a root element):
+    `t` any tree that is `nodeOK` everywhere, sane tables, the start node `n` a comment, a PI or a text node
+    that is not the child of a CDATA-section element, no declaration (with one `parse_fragment` rejects the text
+    at position 0: `C14_options_decl_fragment`), no doctype, indentation on: `parse_fragment` of the output
+    returns `leafFragment` of the node, tables unchanged:
+      * text start node: `D [ n ]` — exactly the node;
+      * comment / PI start node: `D [ n, T "\n" ]` — the node and ONE whitespace-only text node, at the TOP
+        level (the trailing line feed; `parse_fragment` keeps top-level white space).  It differs from `D [ n ]`
+        only by that added whitespace-only text node (`AddsWs`), as the indentation clause demands, but the
+        node is added at top level of a fragment — the case the property's quantifier leaves out ("the
+        indentation clause ranges over well-formed documents and element-rooted subtrees").
+    A text node under a CDATA-section element: its output is the same with and without indentation
+    (`C14_indent_leaf_start` (b)); the reparse of that string as a fragment is not stated here. -/
+theorem C14_indent_leaf_start_roundtrip (env : Env) (p : XmlParams) (sup : List Nat) (t : Tree) (start : Path)
+    (n : Tree) (henv : envOK env = true) (hok : t.allNodes (nodeOK env) = true)
+    (hat : t.at? start = some n) (hv : n.value.isLeafStart = true)
+    (hpar : leafPlainParent p.tokenParams (t.parentAt? start) n.value = true)
+    (hdecl : p.declaration = none) (hdt : p.doctype = none) (hind : p.indentation = some sup)
+    (s : Str) (hs : serializeXmlString env p t start = .ok s) :
+    ∃ q, parseString .fragment env s = .ok q ∧ q.tree = leafFragment n.value ∧ q.env = env ∧
+      AddsWs (.node .document [n]) q.tree := by
+  have hn := subtree_allNodes (nodeOK env) t start n hat hok
+  obtain ⟨v, ks⟩ := n
+  have hleaf : ks = [] := allNodes_leaf env hn (by cases v <;> simp_all [Tree.value, Value.isLeafStart, Value.isLeafKind])
+  subst hleaf
+  simp only [Tree.value] at hv hpar ⊢
+  obtain ⟨body, hb, rfl⟩ := xmlString_decl_pretty env p t start hdt sup hind s hs
+  simp only [XmlParams.declBytes, hdecl, List.nil_append]
+  obtain ⟨q, h1, h2, h3⟩ := leaf_indent_roundtrip env p.tokenParams sup t start v hat hv henv
+    (allNodes_value env hn) hpar body hb
+  refine ⟨q, h1, h2, h3, ?_⟩
+  rw [h2]
+  cases v <;> simp [Value.isLeafStart] at hv
+  · exact AddsWs.refl _
+  · exact .node _ (.cons (AddsWs.refl _) (.ins (by decide) .nil))
+  · exact .node _ (.cons (AddsWs.refl _) (.ins (by decide) .nil))
+
+/-- Non-vacuity, closed (tables of Props/C01; `k` = name 4, `t` = name 5): in `<k><t>x<!--c-->y</t></k>` the
+    comment sits in mixed content (no white space may be added there when the document is serialised), yet as a
+    START node with indentation it is written `<!--c-->` + LF; the text node `x` is written `x`. -/
+def c14LeafDoc : Tree :=
+  .node .document [.node (.element 4) [.node (.element 5)
+    [.node (.text ['x']) [], .node (.comment ['c']) [], .node (.text ['y']) []]]]
+
+example : serializeXmlString c01Env { indentation := some [] } c14LeafDoc [] = .ok "<k>\n  <t>x<!--c-->y</t>\n</k>\n".toList := by
+  decide
+example : serializeXmlString c01Env { indentation := some [] } c14LeafDoc [0, 0, 1] = .ok "<!--c-->\n".toList := by decide
+example : serializeXmlString c01Env {} c14LeafDoc [0, 0, 1] = .ok "<!--c-->".toList := by decide
+example : serializeXmlString c01Env { indentation := some [] } c14LeafDoc [0, 0, 0] = .ok "x".toList := by decide
+example : serializeXmlString c01Env { indentation := some [], doctype := some (.sys ['d']) } c14LeafDoc [0, 0, 1] =
+    .err .notElement := by decide
+example : ∃ q, parseString .fragment c01Env "<!--c-->\n".toList = .ok q ∧
+    q.tree = .node .document [.node (.comment ['c']) [], .node (.text ['\n']) []] ∧ q.env = c01Env := by
+  obtain ⟨q, h1, h2, h3, _⟩ := C14_indent_leaf_start_roundtrip c01Env { indentation := some [] } [] c14LeafDoc [0, 0, 1]
+    (.node (.comment ['c']) []) (by decide) (by decide) rfl rfl (by decide) rfl rfl rfl "<!--c-->\n".toList (by decide)
+  exact ⟨q, h1, h2, h3⟩
+
+/-! ### C14_reachable_indent_roundtrip: indentation on the stores a history can build -/
+
+/-- **C14_reachable_indent_roundtrip**: `C14_options_indent` for every document of every store reached by a
+    `PCall` history from `Xot::new()` — `parse` / `parse_fragment` of arbitrary texts and well-kinded extended API
+    calls in any order (`C04_reach_full`), text consolidation never switched off.  For every parentless tree `r`
+    of the resulting forest whose root is a document node: if the tables are well formed, every node's own VALUE
+    is in the XML domain, the `xml:id` values are pairwise different and there is exactly one top-level element
+    and no top-level text — value-level conditions only, no structural hypothesis on the tree
+    (`C01_reachable_representable_full`) — then for any suppress list, any token parameters, with or without
+    declaration, no doctype: `parse` of the indented output returns `prettyTree sup` of the tree, which differs
+    from it only by added whitespace-only text nodes; tables unchanged.  The serialisation succeeds iff
+    `namesWritable` (second theorem). -/
+theorem C14_reachable_indent_roundtrip (env : Env) (cs : List PCall) (hw : ∀ c ∈ cs, c.wellKinded)
+    (hoff : ((PStore.init env).run cs).forest.everOff = false)
+    (r : HTree) (hr : r ∈ ((PStore.init env).run cs).forest.roots)
+    (hdoc : r.value.isDocument = true) (env' : Env) (henv : envOK env' = true)
+    (hval : r.erase.allNodes (fun v _ => valueOK env' v) = true)
+    (hid : (xmlIdValues env' r.erase).Nodup) (hone : singleRoot r.erase = true)
+    (p : XmlParams) (sup : List Nat) (hdt : p.doctype = none) (hind : p.indentation = some sup)
+    (henc : ∀ d e, p.declaration = some d → d.encoding = some e → Prolog.isEncName e = true)
+    (s : Str) (hs : serializeXmlString env' p r.erase [] = .ok s) :
+    ∃ q, parseString .document env' s = .ok q ∧ q.tree = prettyTree sup r.erase ∧ q.env = env' ∧
+      AddsWs r.erase q.tree := by
+  have hrep : Representable env' r.erase = true := by
+    rw [(C01_reachable_representable_full env cs hw hoff r hr env').2]
+    simp [henv, hdoc, hval, hid, hone]
+  exact C14_options_indent env' p sup r.erase hrep hdt hind henc s hs
+
+/-- The instance the property talks about: the tables the history itself leaves in the store. -/
+theorem C14_reachable_indent_roundtrip_store (env : Env) (cs : List PCall) (hw : ∀ c ∈ cs, c.wellKinded)
+    (S : PStore) (hS : S = (PStore.init env).run cs) (hoff : S.forest.everOff = false)
+    (r : HTree) (hr : r ∈ S.forest.roots) (hdoc : r.value.isDocument = true) (henv : envOK S.env = true)
+    (hval : r.erase.allNodes (fun v _ => valueOK S.env v) = true)
+    (hid : (xmlIdValues S.env r.erase).Nodup) (hone : singleRoot r.erase = true)
+    (p : XmlParams) (sup : List Nat) (hdt : p.doctype = none) (hind : p.indentation = some sup)
+    (henc : ∀ d e, p.declaration = some d → d.encoding = some e → Prolog.isEncName e = true)
+    (s : Str) (hs : serializeXmlString S.env p r.erase [] = .ok s) :
+    ∃ q, parseString .document S.env s = .ok q ∧ q.tree = prettyTree sup r.erase ∧ q.env = S.env ∧
+      AddsWs r.erase q.tree := by
+  subst hS
+  exact C14_reachable_indent_roundtrip env cs hw hoff r hr hdoc _ henv hval hid hone p sup hdt hind henc s hs
+
+/-- Elements inside a reachable tree: `C14_indent_roundtrip_inner` for an element at any path of any parentless
+    tree of a reachable store whose root is a document node (standalone document of the element). -/
+theorem C14_reachable_indent_roundtrip_inner (env : Env) (cs : List PCall) (hw : ∀ c ∈ cs, c.wellKinded)
+    (hoff : ((PStore.init env).run cs).forest.everOff = false)
+    (r : HTree) (hr : r ∈ ((PStore.init env).run cs).forest.roots)
+    (hdoc : r.value.isDocument = true) (env' : Env) (henv : envOK env' = true)
+    (hval : r.erase.allNodes (fun v _ => valueOK env' v) = true)
+    (hid : (xmlIdValues env' r.erase).Nodup)
+    (p : XmlParams) (sup : List Nat) (q : Path) (name : Nat) (ks : List Tree)
+    (hat : r.erase.at? q = some (.node (.element name) ks))
+    (hdt : p.doctype = none) (hind : p.indentation = some sup)
+    (henc : ∀ d e, p.declaration = some d → d.encoding = some e → Prolog.isEncName e = true)
+    (s : Str) (hs : serializeXmlString env' p r.erase q = .ok s) :
+    ∃ x X, standalone r.erase q = some (.node .document [.node (.element name) (nsLeaves X ++ ks)]) ∧
+      Representable env' (.node .document [.node (.element name) (nsLeaves X ++ ks)]) = true ∧
+      parseString .document env' s = .ok x ∧
+      x.tree = prettyTree sup (.node .document [.node (.element name) (nsLeaves X ++ ks)]) ∧ x.env = env' ∧
+      AddsWs (.node .document [.node (.element name) (nsLeaves X ++ ks)]) x.tree := by
+  have hrep : RepresentableFragment env' r.erase = true := by
+    rw [(C01_reachable_representable_full env cs hw hoff r hr env').1]
+    simp [henv, hdoc, hval, hid]
+  exact C14_indent_roundtrip_inner env' p sup r.erase hrep q name ks hat hdt hind henc s hs
+
+/-- Non-vacuity, closed: parse `<k><t>x<k/></t><t/></k>` (`c14Ind`) into the store of `Xot::new()` over the tables
+    of Props/C01 — the history `[parse]` —, serialise the document the store then holds with indentation, parse
+    again: `prettyTree [] c14Ind`. -/
+example : ∃ S r q, S = (PStore.init c01Env).run [.parse .document "<k><t>x<k/></t><t/></k>".toList] ∧
+    S.forest.roots = [r] ∧ r.erase = c14Ind ∧ S.env = c01Env ∧
+    serializeXmlString S.env { indentation := some [] } r.erase [] = .ok c14IndText ∧
+    parseString .document S.env c14IndText = .ok q ∧ q.tree = prettyTree [] c14Ind := by
+  obtain ⟨p, hp, ht, he, _⟩ := C14_options_cdata c01Env {} c14Ind (by decide) "<k><t>x<k/></t><t/></k>".toList (by decide)
+  obtain ⟨h1, h2, _, h4, h5, _⟩ := C01_parse_edit_start c01Env _ p hp
+  rw [ht] at h1 h2
+  rw [he] at h5
+  have hs : serializeXmlString ((PStore.init c01Env).run [.parse .document "<k><t>x<k/></t><t/></k>".toList]).env
+      { indentation := some [] } (HTree.ofTree 0 c14Ind).erase [] = .ok c14IndText := by
+    rw [h5, h2]; decide
+  obtain ⟨q, k1, k2, _⟩ := C14_reachable_indent_roundtrip_store c01Env [.parse .document "<k><t>x<k/></t><t/></k>".toList]
+    (fun c hc => by rcases List.mem_singleton.mp hc with rfl; trivial) _ rfl h4 (HTree.ofTree 0 c14Ind) (by rw [h1]; simp)
+    (by rw [HTree.value_ofTree]; rfl) (by rw [h5]; decide) (by rw [h5, h2]; decide) (by rw [h5, h2]; decide)
+    (by rw [h2]; decide) { indentation := some [] } [] rfl rfl (by intro d e hd; cases hd) c14IndText hs
+  exact ⟨_, _, q, rfl, h1, h2, h5, hs, k1, by rw [k2, h2]⟩
 
 end XotModel.Props
